@@ -288,14 +288,20 @@ func moveOutDir(w *bytes.Buffer, value json.RawMessage,
 	switch t := t.(type) {
 	case *syntax.TypedMapType:
 		keys := make([]string, 0, len(valueMap))
+		var badKeys []string
 		for k := range valueMap {
 			if err := syntax.IsLegalUnixFilename(k); err != nil {
 				util.PrintError(err, "cannot create out directory %q", k)
+				errs = append(errs, fmt.Errorf(
+					"key %q of output %s cannot be used as a file name: %v",
+					k, member.Id, err))
+				badKeys = append(badKeys, k)
 			} else {
 				keys = append(keys, k)
 			}
 		}
 		sort.Strings(keys)
+		sort.Strings(badKeys)
 		p := syntax.StructMember{
 			Tname: t.Elem.TypeId(),
 		}
@@ -310,6 +316,13 @@ func moveOutDir(w *bytes.Buffer, value json.RawMessage,
 				lookup,
 				pipestancePath,
 				outPath); err != nil {
+				errs = append(errs, err)
+			}
+		}
+		// What cannot be moved stays where it is, and stays in the record.
+		for i, k := range badKeys {
+			writeKey(len(keys)+i, k)
+			if _, err := w.Write(valueMap[k]); err != nil {
 				errs = append(errs, err)
 			}
 		}
